@@ -22,7 +22,7 @@ import tempfile
 import time
 import types
 
-from .. import core, save_ir
+from .. import core, save_ir, train_ir
 from ..core import cz, clist, cbool
 
 ID = "C19"
@@ -31,8 +31,10 @@ THEOREMS = ["C19_ir_tie", "C19_save_load_exact", "C19_history_load_exact", "C19_
             "C19_mode_roundtrip_exact", "C19_mode_roundtrip_all_exact", "C19_tensor_outside_state_dict_refuted",
             "C19_master_aliases_live_iff", "C19_snapshot_after_serve_exact_same_dtype",
             "C19_master_copy_in_snapshot_refuted", "C19_crash_unlink_symlink_refuted",
-            "C19_crash_resave_refuted", "C19_resave_after_crash_stale_refuted"]
-MODEL_TARGETS = ["gen/SaveIR.vo", "model/Snapshot.vo", "model/Harness.vo"]
+            "C19_crash_resave_refuted", "C19_resave_after_crash_stale_refuted",
+            "C19_window_tie", "C19_serve_mode_tie", "C19_train_mode_tie", "C19_train_step_order_tie",
+            "C19_run_async_order_tie", "C19_train_loop_order_tie", "C19_hooks_run_in_serving_precision"]
+MODEL_TARGETS = ["gen/SaveIR.vo", "gen/TrainIR.vo", "model/Snapshot.vo", "model/Harness.vo"]
 TRUSTED_BASE = [
     "harness/save_ir.py (fail-closed ast translator saving.py/trainer.py/loading.py -> gen/SaveIR.v)",
     "the fault injector of harness/props/c19.py (patched os.makedirs/rename/unlink/symlink/replace, shutil.rmtree, "
@@ -63,15 +65,42 @@ STUB = ("(* harness/save_ir.py could not translate the source: %s *)\n"
         "Definition resume_probe : pexp := PLatest.\n")
 
 
+def train_ir_stub(why):
+    """TrainIR.v with the type definitions of the real one and empty programs (model/Snapshot.v still builds, every
+    tie lemma of proofs/SnapshotTie.v fails)"""
+    return ("(* harness/train_ir.py could not translate trainer.py: %s *)\n" % why.replace("*)", "* )")[:300]
+            + TRAIN_TYPES + train_ir.STUB_DEFS)
+
+
+TRAIN_TYPES = (
+    "From Coq Require Import List String ZArith.\nImport ListNotations.\nOpen Scope string_scope.\nOpen Scope Z_scope.\n\n"
+    "Inductive cmp := CGt | CGe | CLt | CLe | CEq | CNe.\n"
+    "Inductive wstmt := WAppend | WIfSlice (c : cmp) (lo hi : option Z).\n"
+    "Inductive dsel := DServe | DTrain.\n"
+    "Inductive mstmt := MCapture | MTo (d : dsel) (with_device : bool) | MLoad.\n"
+    "Inductive ev := EBuildModel | EBuildOpt | ELoadOrInit | EServeMode | ETrainMode | ETrainLoop | ETrainStep\n"
+    "| EHook (name : string) | EWindow | EStepInc | EOptimise.\n\n")
+
+
 def pregen(run):
+    """both translators run; a failure leaves a stub behind (never yesterday's text) and is re-raised"""
+    errs = []
     try:
         save_ir.regen(core.REPO)
+        run.oblige("translate:SavingHook.save_snapshot+save_snapshot+save_model / load_or_init_model+load_state+"
+                   "load_snapshot -> gen/SaveIR.v", True)
     except Exception as e:
-        # never leave a stale SaveIR.v behind: the proofs must not be re-checked against yesterday's code
         core.write_if_changed(core.COQ / "gen" / "SaveIR.v", STUB % (str(e).replace("*)", "* )")[:300]))
-        raise
-    run.oblige("translate:SavingHook.save_snapshot+save_snapshot+save_model / load_or_init_model+load_state+load_snapshot "
-               "-> gen/SaveIR.v", True)
+        errs.append(e)
+    try:
+        train_ir.regen(core.REPO)
+        run.oblige("translate:TrainingRun.train_step (window, order) / serve_mode / train_mode / train_loop / run_async "
+                   "-> gen/TrainIR.v", True)
+    except Exception as e:
+        core.write_if_changed(core.COQ / "gen" / "TrainIR.v", train_ir_stub(str(e)))
+        errs.append(e)
+    if errs:
+        raise errs[0]
 
 
 # ----------------------------------------------------------------------------
@@ -1120,8 +1149,26 @@ def continuation_probe(run, world):
 
 
 # ----------------------------------------------------------------------------
+def name_broken_lemma(run):
+    """`make` reports file:line; say WHICH tie lemma / theorem no longer checks"""
+    where = run.extra.get("broken_at", "")
+    mm = re.match(r"(proofs/Snapshot(?:Tie|Proofs)\.v):(\d+)", where)
+    if not mm:
+        return
+    name = None
+    for n, line in enumerate((core.COQ / mm.group(1)).read_text().splitlines(), 1):
+        m2 = re.match(r"\s*(?:Theorem|Lemma|Example)\s+([\w']+)", line)
+        if m2 and n <= int(mm.group(2)):
+            name = m2.group(1)
+    if name:
+        run.extra["broken_lemma"] = name
+        run.oblige(f"tie:{name} ({where})", False, "this lemma of the development no longer checks against the "
+                   "regenerated gen/SaveIR.v / gen/TrainIR.v")
+
+
 def correspondence(run):
     import contextlib
+    name_broken_lemma(run)
     with contextlib.redirect_stdout(io.StringIO()):      # the hook prints "Saving snapshot to ..."
         _correspondence(run)
     # ./check skips its "something broke" step when a known finding was seen in the run; a broken translation /
